@@ -131,6 +131,11 @@ func c17Workload(spec RunSpec) c17Model {
 			m.badKinds = map[string]bool{"fatal:UncaughtThrow": true}
 			m.failMsgByCore = true
 		}
+		if kind == 2 {
+			fail = "throw(\"boom\" + id.to_string());"
+			m.badKinds = map[string]bool{"fatal:UncaughtThrow": true}
+			m.failMsgByCore = true
+		}
 		fmt.Fprintf(&b, `fn bad(id: int, at: int) {
     for i in 0..100 {
         if i == at {
@@ -222,6 +227,38 @@ fn sleeper(id: int) {
 			f := fmt.Sprintf("tw %d done", i)
 			add(f)
 			m.finals = append(m.finals, f)
+		}
+		tail()
+	case 11:
+		// arities 1, 2, 3, 5, 7 and argument types float, bool false, empty string; spawn used in a let
+		b.WriteString(`fn a1(x: float) { println("a1", x); }
+fn a2(id: int, e: str) { println("a2", id, "[" + e + "]"); }
+fn a3(id: int, b: bool, f: float) { println("a3", id, b, f); }
+fn a5(a: int, b: int, c: int, d: int, e: int) { println("a5", a, b, c, d, e); }
+fn a7(a: int, b: str, c: bool, d: float, e: int, f: str, g: int) { println("a7", a, b, c, d, e, f, g); }
+`)
+		b.WriteString("fn main() {\n")
+		for i := 0; i < n; i++ {
+			switch i % 5 {
+			case 0:
+				fmt.Fprintf(&b, "    let h%d = spawn a1(%d.5);\n", i, i)
+				add(fmt.Sprintf("a1 %d.5", i))
+			case 1:
+				fmt.Fprintf(&b, "    spawn a2(%d, \"\");\n", i)
+				add(fmt.Sprintf("a2 %d []", i))
+			case 2:
+				fmt.Fprintf(&b, "    let h%d = spawn a3(%d, false, 0.25);\n", i, i)
+				add(fmt.Sprintf("a3 %d false 0.25", i))
+			case 3:
+				fmt.Fprintf(&b, "    spawn a5(%d, %d, %d, %d, %d);\n", i, i+1, i+2, i+3, i+4)
+				add(fmt.Sprintf("a5 %d %d %d %d %d", i, i+1, i+2, i+3, i+4))
+			default:
+				fmt.Fprintf(&b, "    spawn a7(%d, \"s\", true, 1.5, %d, \"\", %d);\n", i, -i, i*2)
+				add(fmt.Sprintf("a7 %d s true 1.5 %d  %d", i, -i, i*2))
+			}
+		}
+		for l := range m.lines {
+			m.finals = append(m.finals, l)
 		}
 		tail()
 	case 10:
@@ -513,7 +550,7 @@ func planC17(t *testing.T, tier string, seed uint64) ([]RunSpec, error) {
 		sweepCap = 0
 	}
 	idx := 0
-	for shape := 0; shape <= 10; shape++ {
+	for shape := 0; shape <= 11; shape++ {
 		for _, n := range ns {
 			for late := 0; late < 3; late++ {
 				base := RunSpec{Property: "C17", Workload: fmt.Sprintf("c17/shape%d", shape), Params: map[string]int{"shape": shape, "n": n, "iters": 1 + (n+late)%3, "main_late": late}}
@@ -525,7 +562,7 @@ func planC17(t *testing.T, tier string, seed uint64) ([]RunSpec, error) {
 				}
 				if shape == 3 {
 					base.Params["at"] = late
-					base.Params["fail_kind"] = n % 2
+					base.Params["fail_kind"] = n % 3
 					base.Params["nbad"] = 1 + n/5
 				}
 				for k := 0; k < perCell; k++ {
